@@ -78,8 +78,19 @@ def main(ctx, replay=None):
         T = phases[:, None] * U[perm] + noise
         items = [("mode", j) for j in range(n)]
         ctx.count({"n": n, "complex": cplx, "seed": ctx.seed, "t": t})
+        # vector sets as lists of lists, or as arrays; with arrays the SAME base array object serves two sorts in a row (a base is sorted against
+        # once per volume): the second answer is as right as the first
+        as_arrays = bool(t % 4 == 1)
         try:
-            got = evec_sort(list(items), [list(r) for r in T], [list(r) for r in U])
+            if as_arrays:
+                Ta, Ua = numpy.array(T), numpy.array(U)
+                first = evec_sort(list(items), Ta, Ua)
+                got = evec_sort(list(items), Ta, Ua)
+                if first != got:
+                    ctx.violation(f"evec_sort gives two different answers for the same arrays in a row (n={n}, complex={cplx})", {"n": n}, {"clause": "repeat"})
+                    continue
+            else:
+                got = evec_sort(list(items), [list(r) for r in T], [list(r) for r in U])
         except Exception as ex:
             ctx.violation(f"evec_sort raised {ex!r} for n={n}", {"n": n}, {"clause": "sort_raises"})
             continue
@@ -87,7 +98,7 @@ def main(ctx, replay=None):
         for j in range(n):
             want[perm[j]] = items[j]
         if got != want:
-            ctx.violation(f"evec_sort does not recover the permutation for n={n} (complex={cplx}, perturbation {eps:.3f})", {"n": n, "perm": perm.tolist()},
+            ctx.violation(f"evec_sort does not recover the permutation for n={n} (complex={cplx}, perturbation {eps:.3f}, arrays={as_arrays})", {"n": n, "perm": perm.tolist()},
                           {"clause": "constructed"})
     # dimension mismatches: n items need two n x n vector sets; every other combination of shapes is rejected - also when both sets
     # have the SAME wrong shape, and whether the sets are lists or arrays
